@@ -298,3 +298,33 @@ void h_stopped(void)
    CANARY();
 }
 #endif
+
+/* ===================================================================================================================== */
+#ifdef INST_LIMITS
+/* PROPERTY (C16): the solver is started with what is LEFT of the user's limits: a set limit stays a limit (0 left = stop before
+   the first pivot / at the first clock reading), no limit stays no limit. */
+void w_limits(int iterlimit, int done, double timelimit, double infty, double elapsed, int* maxIters, double* maxTime, int* iter_calls, int* time_calls)
+__CPROVER_requires(__CPROVER_is_fresh(maxIters, sizeof(int)) && __CPROVER_is_fresh(maxTime, sizeof(double)))
+__CPROVER_requires(__CPROVER_is_fresh(iter_calls, sizeof(int)) && __CPROVER_is_fresh(time_calls, sizeof(int)))
+/* parameter domain (C15): ITERLIMIT >= -1, INFTY > 0 (so every int is below it), TIMELIMIT in [0, INFTY]; clock and counter non-negative */
+__CPROVER_requires(iterlimit >= -1 && infty >= 1e10 && 0.0 <= timelimit && timelimit <= infty && 0.0 <= elapsed && elapsed <= infty && 0 <= done)
+/* ASSUMED INVARIANT of the driver: the iterations recorded so far do not exceed a set limit (each solve was started with the
+   remainder and - C16, not covered inside solve() - respects it).  WITHOUT it the code turns a negative remainder into
+   "no limit" (setTerminationIter clamps negative values to -1); see the report / level_note */
+__CPROVER_requires(iterlimit >= 0 ==> done <= iterlimit)
+__CPROVER_assigns(*maxIters, *maxTime, *iter_calls, *time_calls)
+__CPROVER_ensures(*iter_calls == 1 && *time_calls == 1)
+__CPROVER_ensures(iterlimit < 0 ==> *maxIters == -1)
+__CPROVER_ensures(iterlimit >= 0 ==> (*maxIters == iterlimit - done && *maxIters >= 0))
+/* time: no limit -> the infinity parameter; otherwise the remainder, clamped at 0: positive iff the limit is not yet reached,
+   never more than the limit (stated without restating the floating-point subtraction) */
+__CPROVER_ensures(!(timelimit < infty) ==> *maxTime == infty)
+__CPROVER_ensures(timelimit < infty ==> (0.0 <= *maxTime && *maxTime <= timelimit && ((*maxTime > 0.0) == (elapsed < timelimit))))
+;
+void h_limits(void)
+{
+   int iterlimit, done; double timelimit, infty, elapsed; int* maxIters; double* maxTime; int* iter_calls; int* time_calls;
+   w_limits(iterlimit, done, timelimit, infty, elapsed, maxIters, maxTime, iter_calls, time_calls);
+   CANARY();
+}
+#endif
